@@ -31,7 +31,7 @@ func NewLens[S, A any](t hseq.Type[S]) Lens[S, A] {
 	ft := t.Type
 	fv := reflect.TypeOf(new(A)).Elem()
 
-	if ft.String() == fv.String() && ft.AssignableTo(fv) {
+	if ft == fv {
 		return &lens[S, A]{t}
 	}
 
